@@ -8,6 +8,7 @@ from .. import datarules as D
 
 PROP = "C13"
 EXPLANATION = (
+    "(UNLISTED / found carriers: lifecycle methods outside the FANOUT table, and types outside the carrier table that implement a lifecycle trait and keep systems, owe all-or-nothing coverage of every carrier field, the sibling rule - an impl that overrides run/setup must not inherit the no-op dispose - and, when they consume the carrier, dispose of every field.) "
     "Static structural obligations over the type-checked MIR of /repo: (FANOUT) every setup/dispose method of a "
     "system carrier (Stage, SendDispatcher, Dispatcher, AsyncDispatcher, BatchControllerSystem, blanket RunNow, "
     "Par/Seq/ParSeq) invokes, on every normal path, exactly one same-family method on each carrier field, per element "
